@@ -91,7 +91,7 @@ def generate(rng, prop, tier):
         p["wordset"] = rng.choice([None, "eff_long", "eff_short", "eff_prefixed", "bip39"])
         p["words"] = rng.choice([None, None, ["alpha", "beta", "gamma", "delta", "epsilon"]]) if p["wordset"] is None else None
     elif api == "libpass_salt":
-        p["length"] = rng.choice([1, 2, 8, 16, 22])
+        p["length"] = rng.choice([1, 1, 2, 8, 16, 22])
         p["by_entropy"] = rng.random() < 0.3
     elif api == "ctx_pin_salt":
         p["form"] = rng.choice(["ctor", "update", "load_update", "ini", "category", "all"])
@@ -375,24 +375,34 @@ def _run(cfg, ctx, src, g):
                       lambda: f"{api} {g.p}: flipping bit {pos} of the {nbits} drawn bits leaves the value {v0!r} unchanged: that bit of the source's "
                               f"answer is thrown away although the draw space is exactly the declared space", api=api, high_bit=pos >= nbits // 2)
         ran.add("bitflip")
-        # ---- small spaces: ALL draws of the source (exhaustive enumeration of this sub-case) -------------------------------
-        if S <= 2 ** 16 and cfg["exhaustive"] and len(rec0) == 1:
-            kind, r, _ = rec0[0]
-            total = (1 << r) if kind == "getrandbits" else r
-            image = set()
+        ran.add("bitflip-done")
+    else:
+        ran.add("statistics")
+    # ---- small spaces: ALL answers of the source (exhaustive enumeration of this sub-case): every declared value must be
+    #      produced by the same number of answers, whether or not draw space and value space have the same size -------------
+    v0, rec0 = _one(ctx, src, g, "reference for enumeration")
+    slow = api in ("salt", "totp_new", "genphrase", "django_disabled")
+    if len(rec0) == 1 and S <= 2 ** 16:
+        kind, r, _ = rec0[0]
+        total = (1 << r) if kind == "getrandbits" else r
+        if total <= (4096 if slow else 2 ** 16) and (cfg["exhaustive"] or total <= 1024):
+            counts = {}
             src.mode = "scripted"
             for a in range(total):
                 src.script = [a]
                 v, _ = _one(ctx, src, g, "exhaustive")
-                image.add(tuple(_symbols(v)))
+                k_ = tuple(_symbols(v))
+                counts[k_] = counts.get(k_, 0) + 1
             src.mode = "stream"
             ctx.fault("source_scripted_exhaustive")
             ctx.extra["exhaustive_subcases"] = ctx.extra.get("exhaustive_subcases", 0) + 1
-            ctx.check(len(image) == S, "C06", "value-space-not-covered",
-                      f"{api} {g.p}: the {total} possible draws reach {len(image)} of the {S} declared values", api=api)
+            ctx.check(len(counts) == S, "C06", "value-space-not-covered",
+                      f"{api} {g.p}: the {total} possible answers of the source reach {len(counts)} of the {S} declared values", api=api)
+            lo_, hi_ = min(counts.values()), max(counts.values())
+            ctx.check(lo_ == hi_, "C06", "values-not-equiprobable",
+                      lambda: f"{api} {g.p}: over all {total} answers of the source some values are produced {hi_} times, others {lo_} times "
+                              f"(e.g. {[''.join(map(str, k)) if not isinstance(k[0], int) else bytes(k) for k, c in counts.items() if c == hi_][:4]})", api=api)
             ran.add("exhaustive")
-    else:
-        ran.add("statistics")
     # ---- statistics (always; decisive when the bijection argument does not apply) -------------------------------------------
     _statistics(ctx, g, values)
     ctx.nontrivial = True
